@@ -353,6 +353,142 @@ func lzwBoundaryInputs(rnd interface{ UintN(uint) uint }, quick bool) [][]byte {
 
 // ---------------------------------------------------------------- per-codec checks
 
+// ---------------------------------------------------------------- LZW: maximal code expansion
+
+// A degenerate input: q incompressible bytes (each uses up one table entry), then a pattern of the
+// given period repeated up to n bytes in all.  With period 1 the table strings grow 1, 2, 3, ... bytes, so the
+// k-th code expands to about k bytes: expansions of more than 2048 bytes need over 2 MB of input, the longest
+// possible one (maxCode-256 = 3839 bytes, table full) 7.4 MB; with period p it takes about 1/p of that to fill
+// the table and the strings reach 1/p of the length.  This is the only way to make the reader stage long
+// expansions at the end of its output buffer while many decoded bytes are still pending at its start.
+type degenerate struct {
+	q, period, n int
+	b            byte
+}
+
+func (d degenerate) String() string {
+	return fmt.Sprintf("%d incompressible bytes, then period-%d pattern from byte 0x%02x up to %d bytes", d.q, d.period, d.b, d.n)
+}
+
+func (d degenerate) data() []byte {
+	out := make([]byte, d.n)
+	// a fixed pseudo-random sequence: hardly any byte pair occurs twice
+	x := uint32(12345)
+	for i := 0; i < min(d.q, d.n); i++ {
+		x = x*1664525 + 1013904223
+		out[i] = byte(x >> 24)
+	}
+	for i := d.q; i < d.n; i++ {
+		out[i] = d.b + byte((i-d.q)%d.period)
+	}
+	return out
+}
+
+func tri(k int) int { return k * (k + 1) / 2 }
+
+// lzwDegenerateInputs: sizes where the longest table string crosses 2048 / 3072 / the table-full length, ends of
+// data just before and after the table-full clear, and more than one table generation.
+func lzwDegenerateInputs(quick bool) []degenerate {
+	res := []degenerate{
+		{0, 1, tri(2048) + 7, 0},
+		{0, 1, tri(3072) + 1, 0xff},
+		{0, 1, tri(3838) - 1, 0},
+		{0, 1, tri(3838) + 5000, 0x41},
+		{0, 1, 8400000, 0},
+		{0, 2, 4100000, 0x20},
+		{1500, 1, tri(2340) + 99, 0},
+	}
+	if !quick {
+		for _, k := range []int{2040, 2047, 2049, 2050, 2304, 2560, 3071, 3073, 3500, 3837, 3838, 3839} {
+			res = append(res, degenerate{0, 1, tri(k) + k/2, byte(k)})
+		}
+		for _, p := range []int{2, 3, 4, 7, 16} {
+			res = append(res, degenerate{0, p, tri(3838)/p + 300000, 0x30}, degenerate{0, p, 2 * tri(3838) / p, 0x80})
+		}
+		for _, q := range []int{1, 2, 255, 256, 700, 1790, 2500, 3000} {
+			res = append(res, degenerate{q, 1, tri(3838-q) + 123456, 0x11}, degenerate{q, 2, tri(3838-q)/2 + 99999, 0x55})
+		}
+		res = append(res, degenerate{0, 1, 16 << 20, 0}, degenerate{0, 1, 3*tri(3838) + 17, 0xfe})
+	}
+	return res
+}
+
+func fnv64(b []byte) uint64 {
+	h := uint64(0xcbf29ce484222325)
+	for _, x := range b {
+		h = (h ^ uint64(x)) * 0x100000001b3
+	}
+	return h
+}
+
+func firstDiff(a, b []byte) int {
+	n := min(len(a), len(b))
+	for i := 0; i < n; i++ {
+		if a[i] != b[i] {
+			return i
+		}
+	}
+	return n
+}
+
+// lzwDegenerate: the degenerate family in both directions - Go's encoder (compress/lzw) read by the library,
+// the library's encoders read by Go's decoders (compress/lzw, x/image/tiff/lzw) - and the model (with the
+// reader's staging buffer alongside) on the independent encoder's code stream.
+func (h *H) lzwDegenerate() {
+	e := h.e
+	v := pdf.V1_7
+	report := func(sig, codec string, d degenerate, enc, got []byte, err error, data []byte) {
+		ok := err == nil && bytes.Equal(got, data)
+		if !ok {
+			h.fail(sig, fmt.Sprintf("%s: x = %s (encoded %d bytes) came back as %d bytes, first difference at offset %d, err=%v",
+				sig, d.String(), len(enc), len(got), firstDiff(got, data), err),
+				map[string]any{"codec": codec, "incompressible_prefix": d.q, "period": d.period, "first_byte": int(d.b), "length": d.n,
+					"encoded": common.Hex(enc[:min(len(enc), 64)]) + "..."})
+		}
+		e.Count(true, fmt.Sprintf("%s %v", sig, d), sig+map[bool]string{true: "", false: ":fail"}[ok])
+	}
+	for i, d := range lzwDegenerateInputs(!e.Thorough) {
+		data := d.data()
+		// compress/lzw writes, the library reads
+		buf := &bytes.Buffer{}
+		zw := stdlzw.NewWriter(buf, stdlzw.MSB, 8)
+		zw.Write(data)
+		zw.Close()
+		got, err := libDecode(pdf.FilterLZW{OffByOne: false}, v, buf.Bytes())
+		report("interop-lzw0-lib-decodes-go-degenerate", "lzw0", d, buf.Bytes(), got, err, data)
+		if i == 4 || (e.Thorough && i%3 == 0 && d.n <= 9<<20) {
+			id := h.id("s")
+			e.Line("cases.txt", "%s S lzw0 %s", id, common.Hex(buf.Bytes()))
+			e.Line("impl.obs", "%s stage 1 okh %d %016x", id, len(data), fnv64(data)) // what an independent decoder must deliver
+		}
+		// the library writes, Go's decoders read
+		for _, early := range []bool{false, true} {
+			name := "lzw0"
+			if early {
+				name = "lzw1"
+			}
+			enc, err := libEncode(pdf.FilterLZW{OffByOne: early}, v, data)
+			if err != nil {
+				report("interop-"+name+"-lib-encode-degenerate", name, d, nil, nil, err, data)
+				continue
+			}
+			var rd io.ReadCloser
+			if early {
+				rd = tifflzw.NewReader(bytes.NewReader(enc), tifflzw.MSB, 8)
+			} else {
+				rd = stdlzw.NewReader(bytes.NewReader(enc), stdlzw.MSB, 8)
+			}
+			got, err := io.ReadAll(rd)
+			report("interop-"+name+"-go-decodes-lib-degenerate", name, d, enc, got, err, data)
+			if e.Thorough && i == 0 {
+				// model-encode -> library-decode (phase 2) for one megabyte-sized input
+				id := h.id("e")
+				e.Line("cases.txt", "%s E %s %s", id, name, common.Hex(data))
+			}
+		}
+	}
+}
+
 func (h *H) check(sig, codec string, data, got []byte, err error, extra map[string]any) bool {
 	ok := err == nil && bytes.Equal(got, data)
 	if !ok {
@@ -1136,6 +1272,7 @@ func main() {
 	for i, d := range lzwBoundaryInputs(e.Rand, !e.Thorough) {
 		h.lzw(d, len(d) < 8000 || i%4 == 0)
 	}
+	h.lzwDegenerate()
 	h.predictors()
 	h.pngInterop()
 	h.ccittCases()
